@@ -71,6 +71,9 @@ type Recipe struct {
 	Dims     int       `json:"dims,omitempty"`
 	Members  string    `json:"members,omitempty"`
 	Children []Recipe  `json:"children,omitempty"`
+	// Refs (Via == "share"): indices of EARLIER pool objects that this object
+	// wraps without copying (a child shared by two parents, as Tile38 does).
+	Refs []int `json:"refs,omitempty"`
 }
 
 // CB is the behaviour of the caller-supplied callback of an operation.
